@@ -687,6 +687,84 @@ fn close_only_layer(rep: &mut Report, rng: &mut Rng, args: &Args) {
   util::cleanup_ipc_dir();
 }
 
+/// (manysockets) term() of a context that holds hundreds of sockets: every stopping socket publishes its own events on
+/// the context-wide bus (256 slots), so a socket can fall behind and miss the termination request itself. term() must
+/// still return promptly (not through its internal 10 s wait), no actor may stay alive, and every handle must fail.
+async fn many_sockets_case(rep: &mut Report, n: usize, with_traffic: bool, bound_every: usize) {
+  let tasks0 = alive_tasks();
+  let ctx = util::new_ctx();
+  let types = [SocketType::Push, SocketType::Pull, SocketType::Dealer, SocketType::Router, SocketType::Pub, SocketType::Sub, SocketType::Req, SocketType::Rep];
+  let mut socks: Vec<Socket> = vec![];
+  for i in 0..n {
+    let s = ctx.socket(types[i % types.len()]).unwrap();
+    if bound_every > 0 && i % bound_every == 0 {
+      let _ = util::bind_fresh(&s, Transport::Inproc).await;
+    }
+    socks.push(s);
+  }
+  let mut pair = None;
+  if with_traffic {
+    let a = ctx.socket(SocketType::Push).unwrap();
+    let b = ctx.socket(SocketType::Pull).unwrap();
+    if let Ok(ep) = util::bind_fresh(&b, Transport::Inproc).await {
+      let _ = a.connect(&ep).await;
+      let a2 = a.clone();
+      tokio::spawn(async move {
+        loop {
+          if a2.send(util::msg(vec![7u8; 100], false)).await.is_err() {
+            break;
+          }
+          tokio::time::sleep(Duration::from_millis(1)).await;
+        }
+      });
+      let b2 = b.clone();
+      tokio::spawn(async move { while b2.recv().await.is_ok() {} });
+    }
+    pair = Some((a, b));
+  }
+  tokio::time::sleep(Duration::from_millis(50)).await;
+  let cfg = format!("one context with {} idle sockets of all eight types ({} bound to inproc names){}", n, if bound_every > 0 { n / bound_every } else { 0 }, if with_traffic { " plus one live inproc PUSH/PULL pair" } else { "" });
+  let t0 = Instant::now();
+  let termed = tokio::time::timeout(util::scaled(Duration::from_secs(30)), ctx.term()).await;
+  let took = t0.elapsed();
+  rep.case(&("manysockets", n, with_traffic, bound_every), true);
+  rep.max("max:manysockets_term_ms", took.as_millis() as u64);
+  if termed.is_err() {
+    rep.violation("term_did_not_return|manysockets".to_string(), format!("term() had not returned after 30 s ({}); live actors {}", cfg, verif::live_actors(&ctx)), json!({"config": cfg}));
+  } else if took >= util::scaled(Duration::from_secs(9)) {
+    rep.violation("term_returned_only_through_internal_timeout|manysockets".to_string(), format!("term() took {:?} (its internal wait times out after 10 s); live actors right after: {} ({})", took, verif::live_actors(&ctx), cfg), json!({"config": cfg}));
+  }
+  // handles of a terminated context must fail, promptly
+  let mut still_answering = 0;
+  let mut hanging = 0;
+  for s in socks.iter().chain(pair.iter().flat_map(|(a, b)| [a, b])) {
+    match tokio::time::timeout(util::scaled(Duration::from_secs(2)), s.get_option(opt::RCVHWM)).await {
+      Ok(Ok(_)) => still_answering += 1,
+      Ok(Err(_)) => {}
+      Err(_) => hanging += 1,
+    }
+  }
+  let la = verif::live_actors(&ctx);
+  if still_answering > 0 || la > 0 {
+    rep.violation("actors_alive_after_term|manysockets".to_string(), format!("after term() returned ({:?}), {} of {} socket handles still answer get_option() and {} actor(s) are counted alive ({})", took, still_answering, n, la, cfg), json!({"config": cfg, "still_answering": still_answering, "live_actors": la}));
+  }
+  if hanging > 0 {
+    rep.violation("operation_on_closed_socket_hangs|manysockets".to_string(), format!("{} get_option() calls on sockets of a terminated context did not return within 2 s ({})", hanging, cfg), json!({"config": cfg}));
+  }
+  drop(socks);
+  drop(pair);
+  drop(ctx);
+  let t2 = Instant::now();
+  let mut tasks1 = alive_tasks();
+  while tasks1 > tasks0 && t2.elapsed() < util::scaled(Duration::from_secs(3)) {
+    tokio::time::sleep(Duration::from_millis(50)).await;
+    tasks1 = alive_tasks();
+  }
+  if tasks1 > tasks0 {
+    rep.violation("tasks_left_running|manysockets".to_string(), format!("{} tokio task(s) more than before are still alive 3 s after term() ({})", tasks1 - tasks0, cfg), json!({"config": cfg}));
+  }
+}
+
 fn gen_plan(rng: &mut Rng) -> Plan {
   let all = [
     (SocketType::Pull, SocketType::Push),
@@ -718,6 +796,26 @@ fn main() {
   let mut rng = Rng::new(args.seed.wrapping_mul(295075147).wrapping_add(args.shard as u64));
   if args.only.as_deref() == Some("rpqclose") {
     rpq_close_layer(&mut rep, &mut rng);
+    rep.merge_hooks();
+    rep.emit();
+    return;
+  }
+  if args.only.as_deref() == Some("manysockets") {
+    let rt = util::runtime(4);
+    let grid: &[(usize, bool, usize)] = if args.thorough() { &[(300, false, 0), (420, true, 0), (600, true, 7), (270, false, 3), (1000, true, 0)] } else { &[(300, false, 0), (420, true, 0), (600, true, 7)] };
+    for (i, (n, traffic, bound)) in grid.iter().enumerate() {
+      if args.mine(i) {
+        rt.block_on(async { tokio::time::sleep(Duration::from_millis(20)).await });
+        if !util::guarded(&rt, many_sockets_case(&mut rep, *n, *traffic, *bound)) {
+          rep.inconclusive("manysockets case aborted by a harness panic".to_string());
+        }
+      }
+    }
+    for p in util::take_panics() {
+      if p.in_rzmq {
+        rep.violation(format!("panic|{}", util::panic_site(&p.location)), format!("panic at {}: {}", p.location, p.message), json!({"frames": p.backtrace_head}));
+      }
+    }
     rep.merge_hooks();
     rep.emit();
     return;
